@@ -1039,7 +1039,7 @@ def check_C14(ctx):
         if k < 1: ctx.sample(dict(log=logb, date_format=layout))
     # a sweep over date layouts: every order and subset of the year / month / day reference tokens with the literals the model admits between, before and
     # after them (also none at all, doubled ones, a token twice: the model then declines and only a clean exit is required)
-    SPACES_IN_LAYOUTS = False      # set once Model/Dates.v treats a space of the layout as Go's time.skip does (a run of spaces, also an empty one at the end)
+    SPACES_IN_LAYOUTS = True       # Model/Dates.v treats a space of the layout as Go's time.skip does (a run of spaces, also an empty one at the end)
     seps = ["", "/", "-", ".", " ", ":", "//", ". ", " - ", ":/"] if SPACES_IN_LAYOUTS else ["", "/", "-", ".", ":", "//", ":/", "./"]
     for k in range(ctx.scale(250, 4000)):
         toks = r.sample(["2006", "01", "02"], r.choice([1, 2, 3, 3, 3, 3]))
